@@ -15,6 +15,10 @@ func TestC05(t *testing.T) {
 	p.PFault = 25
 	p.MaxTxs = 8
 	p.W["raw"] = 1
+	// 30 % of the histories: many stakes on few validators, validators leaving with their delegators - the stake
+	// transactions with the most steps between their first write and their last check
+	p.Alt, p.PAlt = massExitProfile(), 30
+	p.Alt.PFault = 25
 	runCheck(t, "C05", p, func(src Source, st *Stats) *Outcome {
 		var digests [][]string
 		c, err := RunPrimary("C05", src, &PrimaryOpts{AfterCommit: func(c *Case, b *Block, br *BlockResult) error {
